@@ -67,6 +67,7 @@ var c12Sites = map[string][]string{
 	"undo":   {"Undo.afterUndoAdd", "Undo.afterUndoDeletion"},
 	"verify": {"verify.beforeIngest", "ingest.afterProof"},
 	"ingest": {"ingest.afterProof"},
+	"vpp":    {"verify.beforeIngest", "ingest.afterProof"},
 	"prune":  {"Prune.afterUnmark"},
 	"reread": {"Read.afterHeader", "Read.afterCached"},
 }
@@ -103,7 +104,7 @@ func genC12(t *rapid.T) C12Case {
 	g := newWgen(partial)
 	ops := []string{"block", "block", "block", "block", "undo", "verify", "reread"}
 	if partial {
-		ops = append(ops, "prune", "ingest", "verify")
+		ops = append(ops, "prune", "ingest", "verify", "vpp")
 	}
 	n := rapid.IntRange(2, lim.maxBlocks).Draw(t, "nsteps")
 	// 1 script in 12 contains one block that adds thousands of leaves (a long critical section; later
@@ -169,6 +170,13 @@ func genC12(t *rapid.T) C12Case {
 	}
 	c.Second = rapid.IntRange(0, 2).Draw(t, "second") == 0
 	if c.Second && c.Mode == "stress" {
+		// "vpp" is two library calls (GetMissingPositions, then VerifyPartialProof with exactly those
+		// hashes): a second writer remembering leaves in between legitimately changes what is missing
+		for i := range c.Steps {
+			if c.Steps[i].Op == "vpp" {
+				c.Steps[i].Op = "ingest"
+			}
+		}
 		ne := rapid.IntRange(1, 4).Draw(t, "nextra")
 		for i := 0; i < ne; i++ {
 			q := C12Query{Kind: "verify-remember", State: rapid.IntRange(0, n).Draw(t, "xstate")}
